@@ -116,4 +116,22 @@ def matchRoute (pattern path : Bytes) : Option (List (Bytes × Bytes)) :=
     | none => none
     | some rs => matchSegs segs rs
 
+/-- what the harness observes of one round trip: `URLFor` failed; or it returned `url` and the request for it
+    was not a request URI / ran the route's handler with these parameters (pattern order) / did not -/
+inductive Obs where
+  | error
+  | notRequestURI (url : Bytes)
+  | routedBack (url : Bytes) (params : List (Bytes × Bytes))
+  | notRouted (url : Bytes)
+  deriving DecidableEq, Repr
+
+/-- `URLFor`, then the request for the URL it returned, on a router that holds the one route -/
+def roundTrip (pattern : Bytes) (vals : Vals) : Obs :=
+  match buildURL pattern vals, seenPath pattern vals with
+  | some url, some seen =>
+    (match matchRoute pattern seen with
+     | some ps => .routedBack url ps
+     | none => .notRouted url)
+  | _, _ => .error
+
 end Rivaas.Reverse
